@@ -509,7 +509,7 @@ func wellFormedXML(b []byte) error {
 }
 
 func runNCCase(id string, c *ncCase) {
-	defer recoverCase(id, c)
+	defer watchCase(id, c)()
 	srv := &sim.NCServer{Hello: buildHello(c), Echo: c.Echo, AfterDelim: c.AfterDelim}
 	for _, o := range c.Ops {
 		srv.Behaviours = append(srv.Behaviours, sim.Behaviour(o.Beh))
